@@ -15,7 +15,7 @@ Definition wf_inv (v : inv) : bool :=
 
 (* the target-side image of a source tree: import of the initial commit that adds everything *)
 Definition image (plain : bool) (old : inv) : res (inv * N) :=
-  let '(c, m) := filecmds plain [] old [] [] in import_commit (fun _ _ => false) [] 1000 (c ++ m).
+  let '(c, m) := filecmds plain [] old [] [] in import_commit [] 1000 (c ++ m).
 
 (* ------------------------------------------------------------------ *)
 (* generic list facts                                                  *)
